@@ -321,6 +321,11 @@ func (s *MemoryBackend) read(ctx context.Context, store string, filter storage.R
 			telemetry.TraceError(span, err)
 			return nil, err
 		}
+		if from < 0 {
+			// a negative offset can only come from a forged or corrupted continuation token
+			telemetry.TraceError(span, storage.ErrInvalidContinuationToken)
+			return nil, storage.ErrInvalidContinuationToken
+		}
 	}
 
 	if from <= len(matches) {
